@@ -194,4 +194,5 @@ def targets(ctx):
 
     return [Target("handwritten_classes_odd_attribute_names", hand_ev, cases=hand_cases, exhaustive=True, shard_cases=False,
                    rule="a hand-written message (public field API) with attribute names userID, sessionToken, retry__count, HTTPStatus, x_y_z, address_line_1, subItem, byName, trailing_ ... : every casing x path x form"),
-            Target("corpus_values_json", ev, poison=_poison_fn, strategy=strat(), quick=700, thorough=8000, time_quick=70), _seq.target("C04")]
+            Target("corpus_values_json", ev, poison=_poison_fn, strategy=strat(), quick=700, thorough=8000, time_quick=70), _seq.target("C04"),
+            *__import__("vf.props._thr", fromlist=["target"]).target(ctx, ['from_dict:Leaf', 'to_dict:Leaf', 'from_dict:Names', 'to_dict:Solo'])]
